@@ -78,7 +78,7 @@ def gen_history(rnd, maxops, invs, p_stale=0.2, allow_cfg=True, sessions=0.15):
             if in_spr:
                 h.spr_exit()
             else:
-                h.spr_enter(rnd.random() < 0.5)
+                h.spr_enter(rnd.choice([False, True, None]))
             in_spr = not in_spr
         elif x < 0.18:
             if in_ov:
